@@ -324,7 +324,17 @@ def check_case(ctx, case):
                 else:
                     sub_given = case['subscripts']
                     # numpy's implicit mode (no '->'): the output carries the indices that occur once, alphabetically
-                    sub = {'ij,jk': 'ij,jk->ik', 'ij,j': 'ij,j->i', 'ii': 'ii->', 'ji': 'ji->ij'}.get(sub_given, sub_given)
+                    sub = {'ij,jk': 'ij,jk->ik', 'ij,j': 'ij,j->i', 'ii': 'ii->', 'ji': 'ji->ij', 'jk,ij': 'jk,ij->ik'}.get(sub_given, sub_given)
+                    if ctx.lean is not None:
+                        # the model of the completion (`Einsum.complete`, c10_einsum_implicit_*) gives the same explicit form
+                        rr_ = ctx.lean.call({'op': 'einsum_out', 'subs': sub_given})
+                        if '_err' in rr_:
+                            probs.append(('disagree', 'lean-driver-error', rr_['_err']))
+                        elif rr_.get('subs') != sub:
+                            probs.append(('disagree', 'einsum-subscripts', '%r: model %r, numpy rule %r' % (sub_given, rr_.get('subs'), sub)))
+                    if sub == 'jk,ij->ik':
+                        # the product in the other order: X is (j, k), Y is (i, j), the result Y X
+                        mats = [mats[0], mat(rng.randint(1, 3), dims[0], cplx)]
                     if sub == 'ji->ij':
                         mats = [mats[0]]
                     elif sub == 'ii->':
@@ -336,7 +346,9 @@ def check_case(ctx, case):
                     else:
                         mats = mats[:2]
                     res = L.einsum(sub_given, *mats)
-                if sub == 'ji->ij':
+                if sub == 'jk,ij->ik':
+                    ref = mats[1] @ mats[0]
+                elif sub == 'ji->ij':
                     ref = mats[0].T
                 elif sub is None or sub == 'ij,jk->ik':
                     ref = mats[0]
@@ -410,7 +422,7 @@ def gen_case(ctx):
         case['cplx'] = rng.random() < 0.4
         case['plain'] = rng.choice([None, None, 1])
         if what == 'einsum':
-            case['subscripts'] = rng.choice(['ij,jk->ik', 'ii->', 'ij,j->i', 'ij,ij->ij', 'ij,jk', 'ij,j', 'ii', 'ji', 'ji->ij'])
+            case['subscripts'] = rng.choice(['ij,jk->ik', 'ii->', 'ij,j->i', 'ij,ij->ij', 'ij,jk', 'ij,j', 'ii', 'ji', 'ji->ij', 'jk,ij', 'jk,ij'])
             case['plain'] = None
     return case
 
